@@ -718,8 +718,12 @@ def run_property(prop, harnesses, tier, meta, only=None, workers=None, mem_total
     if extra_info.get("mir2smt", {}).get("status") == "violation":
         viol += len(extra_info["mir2smt"].get("replays", []))
     samples = []
+    byname = {r["harness"]: r for r in results}
     for h in hs[:6]:
-        samples.append({"harness": h.name, "bounds": h.bounds, "sample": h.sample})
+        r = byname.get(h.name, {})
+        samples.append({"harness": h.name, "bounds": h.bounds,
+                        "sample": h.sample or ("one SAT query over every input within: " + (h.bounds or "the harness's stated bounds")),
+                        "verdict": r.get("verdict"), "checks_discharged": r.get("checks_total"), "covers_satisfied": r.get("covers_satisfied"), "solver_s": r.get("solver_s")})
     ev = {
         "property_id": prop,
         "tier": tier,
